@@ -173,6 +173,17 @@ func Yield(res uintptr) int64 {
 	return Point(t, OpYield, res, 0)
 }
 
+// IOPoints switches on the scheduling points that precede blocking network I/O issued by pike's request path
+// (YieldIO). Scenarios that run the real proxy set it in their Setup; RunSched clears it before every Setup.
+var IOPoints bool
+
+// YieldIO is a scheduling point only while IOPoints is set.
+func YieldIO(res uintptr) {
+	if IOPoints {
+		Yield(res)
+	}
+}
+
 // PeekClock reads the virtual clock without creating a scheduling point.
 func PeekClock() int64 {
 	if t := Cur(); t >= 0 {
